@@ -281,7 +281,7 @@ def check_C19(c):
             continue
         if g.triples and all(isinstance(x, str) for t in g.triples for x in t):
             lists.append([list(t) for t in g.triples])
-    syms = ['a', 'b', 'x1', 'bark-01', '-', '+', '1', '0.5', 'é', 'a.b', 'a/b'[:1], 'Z_9', '_']
+    syms = ['a', 'b', 'x1', 'bark-01', '-', '+', '1', '0.5', 'é', 'a.b', 'a/b'[:1], 'Z_9', '_', '^x', 'p^q']
     strs = ['"q"', '"x y"', '"a,b"', '"(p)"', '"^"', '"a ^ b(c, d)"', '""', '"\\"esc\\""', '", "', '"#"', '"1"']
     # strings whose content ends in an escaped backslash or mixes escaped backslashes and quotes (several per line when indent=False)
     strs += ['"C:\\\\data\\\\"', '"\\\\"', '"a\\\\\\"b"', '"\\\\\\""', '"x\\\\"']
@@ -289,7 +289,7 @@ def check_C19(c):
     strs += ['"War%sand Peace"' % gen.SC[k] for k in ('ls', 'nel', 'vt', 'ff', 'fs')] + ['"%s"' % gen.SC['ls'], '"a%sb, c%s"' % (gen.SC['nel'], gen.SC['vt'])]
     import json as _json
     strs += [_json.dumps(''.join(c.rng.choice('ab \\"^,()') for _ in range(c.rng.randint(1, 5)))) for _ in range(12)]
-    roles = [':instance', ':ARG0', ':ARG1-of', ':op1', ':mod', ':r', ':x-y']
+    roles = [':instance', ':ARG0', ':ARG1-of', ':op1', ':mod', ':r', ':x-y', ':^up', ':a^b']
     for _ in range(_q(c, 1500, 40000)):
         n = c.rng.randint(1, 6)
         ts = []
@@ -307,7 +307,7 @@ def check_C19(c):
     c.rule = ('triple lists of every decodable corpus graph and random lists (targets: symbols, numerals, quoted strings with '
               'blanks, commas, parentheses, carets, escapes) x both line styles x the 12 documented spacing variants; '
               'non-trivial = two or more triples or a quoted target; distinct by input')
-    c.assumptions += ['sources and roles containing a comma or starting with a caret are outside the notation (TripleSafe)']
+    c.assumptions += ['sources, roles and symbol targets containing a comma, and the bare symbol ^, are outside the notation (TripleSafe)']
 
 
 REGISTRY = {'C08': check_C08, 'C07': check_C07, 'C01': check_C01, 'C18': check_C18, 'C19': check_C19}
